@@ -64,8 +64,6 @@ theorem table_spec_down_any (g : Globals) (hg : g.dialect = .mysql) (hio : g.ign
     (d : Migration) (hd : loadAndDiff g old new = .ok d)
     (t : String) (tbO tbN : TableSpec) (hfo : dbO.find t = some tbO) (hfn : dbN.find t = some tbN)
     (hc : Abs.OrderCompatible tbN.colNames tbO.colNames) (hne : ∀ n ∈ tbN.colNames ++ tbO.colNames, n ≠ "")
-    (hncO : ∀ c ∈ tbO.cols, ∀ k ∈ c.opts, k.noComment = true)
-    (hncN : ∀ c ∈ tbN.cols, ∀ k ∈ c.opts, k.noComment = true)
     (hpk : tbO.pk = tbN.pk)
     (hredef : ∀ dc : List String, (∀ c ∈ dc, c ∉ tbO.colNames) →
       ∀ s ∈ tbN.idxs, ∀ o ∈ tbO.idxs, o.name = s.name → o ≠ s → ∃ c ∈ s.cols, c ∉ dc) :
@@ -86,7 +84,7 @@ theorem table_spec_down_any (g : Globals) (hg : g.dialect = .mysql) (hio : g.ign
     List.all_eq_true.mpr (fun s hs => ReaderMysql.tablePk_of_plainOpts s (List.all_eq_true.mp hpn s hs))
   -- the column part
   obtain ⟨td, htd, hname, hact, hup, cols', hex, heq, hss⟩ := columns_spec_down_pre g hg hio rc old new dbO dbN ho hn hpo hpn
-    heo hen d hd t tbO tbN hfo hfn hc hne hncO hncN
+    heo hen d hd t tbO tbN hfo hfn hc hne
   -- uniqueness of the diffed record
   have hdInv : d.Inv := by
     have hd' := hd
